@@ -52,7 +52,20 @@ LOG_TYPES = {0: 'DEFAULT', 1: 'INFO', 2: 'DEBUG', 0x10: 'ERROR', 0x11: 'FAULT'}
 EPOCH = datetime(1970, 1, 1, tzinfo=timezone.utc)
 
 
+def reorder(x, how):
+    """the same mapping with its keys inserted in another order (recursively)."""
+    if isinstance(x, dict):
+        keys = list(x)
+        keys = keys[::-1] if how == 'reversed' else sorted(keys, key=lambda k: (len(k), k))
+        return {k: reorder(x[k], how) for k in keys}
+    if isinstance(x, list):
+        return [reorder(i, how) for i in x]
+    return x
+
+
 def decode(event, strings, via):
+    if via in ('reversed', 'sorted'):
+        return OsLogEvent.from_raw_log_event(reorder(copy.deepcopy(event), via), strings)
     if via == 'direct':
         return OsLogEvent.from_raw_log_event(copy.deepcopy(event), strings)
     rev = {v: k for k, v in strings.items()}
@@ -252,7 +265,7 @@ class C16(Check):
             'decomposed messages: every single-segment shape over the optional sub-keys (2 x 25 x 145), all pairs over a reduced '
             'set, and literal-only segments before/after/between placeholder segments (placeholder count < segment count); trace identifiers: namespace (7) x every type the format defines for it x all 64 values of the general flag bits x '
             'namespace flags (log: all 32 subsets; trace: 9 values incl. 0; 0 elsewhere) x code {0,1,2^32-1}; decoded directly '
-            '(all) and inside a v3 dump (subsets with <=1 key present/absent). Oracle: no exception; every present key appears in '
+            '(all; the single-segment shapes and the <=1-key subsets also with the raw dicts\' keys in reversed and in sorted order) and inside a v3 dump (subsets with <=1 key present/absent). Oracle: no exception; every present key appears in '
             'its field with its value (strings through the index, unix_date the exact UTC instant, segments in order); absent keys '
             'keep the defaults; identifier fields invert the bit packing. Distinct by construction; non-trivial = at least one '
             'optional key present.')
@@ -308,9 +321,15 @@ class C16(Check):
                 for sub in itertools.combinations(KEYS, k):
                     self._rec(acc, set(sub), 'v3')
                     self._rec(acc, set(KEYS) - set(sub), 'v3')
+                    for via in ('reversed', 'sorted'):
+                        self._rec(acc, set(sub), via)
+                        self._rec(acc, set(KEYS) - set(sub), via)
+            # loss-window time zones that differ from the record's own
+            self._rec(acc, {'lsutz', 'leutz', 'lsud', 'leud'}, 'direct', {'utz': {'mw': 7, 'dt': 1}, 'lsutz': {'mw': -60, 'dt': 0}, 'leutz': {'mw': 300, 'dt': 1}})
         elif kind == 'dm1':
             for seg in segment_shapes():
-                self._rec(acc, {'dm'}, 'direct', {'dm': {'pc': 1, 's': 2, 'seg': [seg]}})
+                for via in ('direct', 'reversed', 'sorted'):
+                    self._rec(acc, {'dm'}, via, {'dm': {'pc': 1, 's': 2, 'seg': [seg]}})
         elif kind == 'dm2':
             shapes = segment_shapes()
             red = shapes[::37]
